@@ -1,7 +1,7 @@
 package main
 
 // Real-time runs WITHOUT the hook scheduler (so that code behind the hooks - Close's sleep between grace polls - is
-// the code that runs): a queued channel whose transport stalls inside Writev for a quarter of a second, far less
+// the code that runs): a queued channel whose transport stalls inside Writev for 120 ms, far less
 // than the documented grace period of 10 x 100 ms; Close (optionally after the parent context was cancelled) must
 // not close the transport before the accepted payload has been written and flushed (C06).
 
@@ -78,7 +78,7 @@ func runRealtime(c rtCfg) (order []string) {
 }
 
 func exploreRealtime(meta *hx.Meta) {
-	for _, c := range []rtCfg{{false, false, false, 250}, {false, true, false, 250}, {true, true, true, 250}, {false, true, true, 250}} {
+	for _, c := range []rtCfg{{false, false, false, 120}, {false, true, false, 120}, {true, true, true, 120}, {false, true, true, 120}} {
 		order := runRealtime(c)
 		meta.Evaluations++
 		meta.Count("real-time (no scheduler)", fmt.Sprintf("until=%v parent-cancelled=%v", c.Until, c.ParentCancel))
